@@ -29,7 +29,9 @@ def base_models():
     noobj = dict(lp, objs=[])
     obj2 = dict(lp, objs=lp["objs"] + [{"max": True, "lin": [[0, 2], [1, -1]]}])
     quad = dict(lp, cons=[{"lb": None, "ub": 9, "lin": [], "expr": O(0, O(2, V(0), V(2)), O(2, V(1), V(1)))}])
-    return {"ok_quad": quad, "ok_lp": lp, "ok_logic": logic, "infeas": infeas, "unsupported": unsup, "needbounds": needb,
+    powce = dict(lp, cons=lp["cons"] + [{"lb": None, "ub": 40, "lin": [], "expr": ["o", 5, O(0, N(1), N(1)), V(1)]}])
+    powvar = dict(lp, cons=lp["cons"] + [{"lb": None, "ub": 40, "lin": [], "expr": ["o", 76, V(0), V(1)]}])
+    return {"ok_quad": quad, "ok_powce": powce, "bad_powvar": powvar, "ok_lp": lp, "ok_logic": logic, "infeas": infeas, "unsupported": unsup, "needbounds": needb,
             "infeas_nested": nested, "ok_noobj": noobj, "ok_obj2": obj2}
 
 
@@ -96,8 +98,8 @@ def run(tier):
     mc = tlc("MCDriver", "MCDriver.cfg", cwd=sd, workers=NPROC)
     tlc_must_pass(mc, "MCDriver")
     scen = printed_json(mc, "CASE")
-    if len(scen) != 5054:
-        raise Broken("expected 5054 scenarios, got %d" % len(scen))
+    if len(scen) != 5294:
+        raise Broken("expected 5294 scenarios, got %d" % len(scen))
     scen.sort(key=lambda s: json.dumps(s, sort_keys=True))
     exe = targets.get("h_drv")
     cfgs, acc = cvtcases.configs(exe)
